@@ -14,8 +14,9 @@
    Reopen reads the oplog file back.  [reopen_ok] asks, at each reopen point, that oplog_open decodes the two
    oplog files to related outcomes (same bits and sizes, headers / entries equal up to keys and signatures).
    For histories without reopen it is trivially true (reopen_ok_no_reopen), so
-   other_files_independent_of_secret_no_reopen is unconditional.  Deriving reopen_ok from well-formedness
-   (CRC < 2^32, 32-byte hashes, 64-byte signatures, Unified1.FInv) is NOT done here; see REPORT. *)
+   other_files_independent_of_secret_no_reopen is unconditional.  For histories WITH reopen, reopen_ok is derived
+   from well-formedness (CRC < 2^32, 32-byte hashes, 64-byte signatures, sizes below 2^64) in KeyIndepWf.v
+   (wf_reopen_ok, other_files_independent_of_secret_wf). *)
 From HC Require Import Base NMap Codec CodecFacts Crypto FlatTree Storage StorageFacts Bitfield Oplog Merkle Core.
 From HC Require Import KeyIndep.
 From Coq Require Import ZifyN ZifyNat ZifyBool Lia.
